@@ -404,6 +404,7 @@ class Interp:
         self.frames = [Frame('script', path)]
         env = Env(self.globals)
         self.module_env = env
+        self.current_exports = []
         try:
             self.predeclare(stmts, env)
             self.exec_block(stmts, env, new_scope=False)
@@ -982,7 +983,50 @@ class Interp:
         return self.current_exports
 
     def exec_import(self, s, env):
-        raise Refuse('import outside the module harness')
+        path = list(s.a)
+        if not path or path[0] != 'self':
+            raise Refuse('import of a non-self package')
+        segs = path[1:]
+        if not segs:
+            raise Refuse('import self')
+        self.frames[-1].line = s.line
+        mod = None
+        for i in range(1, len(segs) + 1):
+            mod = self.load_module(tuple(segs[:i]))
+        # the instance is a snapshot of the exported values taken now
+        snapshot = {name: mod['env'].vars[name].v for name in mod['exports']}
+        if s.c is not None:
+            for sym, alias in s.c:
+                if sym not in snapshot:
+                    raise self.rt_error('ImportError', 'Symbol %s not exported from module %s' % (sym, segs[-1]))
+            for sym, alias in s.c:
+                self.declare(env, alias or sym, snapshot[sym])
+            return
+        inst = LyModule(segs[-1], snapshot)
+        self.declare(env, s.b or segs[-1], inst)
+
+    def load_module(self, key):
+        m = self.module_cache.get(key)
+        if m is not None:
+            return m
+        if key not in self.modules_src:
+            raise self.rt_error('ImportError', 'Module self.%s not found' % '.'.join(key))
+        path, stmts = self.modules_src[key]
+        env = Env(self.globals)
+        m = {'env': env, 'exports': [], 'path': path}
+        saved_frames = self.frames
+        saved_exports = getattr(self, 'current_exports', None)
+        # a module body runs on its own fiber: a fresh call chain
+        self.frames = [Frame('script', path)]
+        self.current_exports = m['exports']
+        self.predeclare(stmts, env)
+        self.exec_block(stmts, env, new_scope=False)
+        # on an error the frames of the module stay in place for the traceback
+        self.frames = saved_frames
+        self.current_exports = saved_exports
+        self.module_cache[key] = m
+        self.module_runs = getattr(self, 'module_runs', 0) + 1
+        return m
 
 
 def _natives():
